@@ -50,3 +50,15 @@ Definition C17_guard (h : list sev) : bool := negb (forallb gap_ok (gaps h)).
 (* the k-th value the generator yields, counting from 0 *)
 Fixpoint nth_yield (k : nat) (v : Z) : Z :=
   match k with O => fst (draw v) | S k' => nth_yield k' (snd (draw v)) end.
+
+(* General form, for packets that are sent in another order than they were constructed (a read
+   plan constructs its fragmented packets before its multi-service packets and sends them after):
+   a history is the list of DRAW INDICES (0 = first count ever drawn from the generator) of the
+   messages sent, in sending order. *)
+Definition counts_of (idx : list nat) : list Z := map (fun i => nth_yield i seq_init) idx.
+Fixpoint idx_repeat_from (prev : option nat) (idx : list nat) : bool :=
+  match idx with
+  | [] => false
+  | i :: r => (match prev with Some p => (Z.of_nat i - Z.of_nat p) mod PERIOD =? 0 | None => false end) || idx_repeat_from (Some i) r
+  end.
+Definition idx_guard (idx : list nat) : bool := idx_repeat_from None idx.
